@@ -202,8 +202,13 @@ size_t qurl_decode(char *str) {
                 break;
             }
             case '%': {
-                *pBinPt++ = _q_x2c(*(pEncPt + 1), *(pEncPt + 2));
-                pEncPt += 2;
+                if (*(pEncPt + 1) != '\0' && *(pEncPt + 2) != '\0') {
+                    *pBinPt++ = _q_x2c(*(pEncPt + 1), *(pEncPt + 2));
+                    pEncPt += 2;
+                } else {
+                    // truncated escape sequence, keep it as it is.
+                    *pBinPt++ = *pEncPt;
+                }
                 break;
             }
             default: {
